@@ -73,12 +73,74 @@ def extreme_weight_basis(gens, n, rng, heavy=True):
     return basis
 
 
+def two_colouring(n, adj):
+    colour = [None] * n
+    for s in range(n):
+        if colour[s] is not None:
+            continue
+        colour[s] = 0
+        stack = [s]
+        while stack:
+            v = stack.pop()
+            for u in range(n):
+                if adj[v] >> u & 1:
+                    if colour[u] is None:
+                        colour[u] = 1 - colour[v]
+                        stack.append(u)
+                    elif colour[u] == colour[v]:
+                        return None
+    return colour
+
+
+def css_member(n, orbit_gid, rng, tries=40):
+    """a member of the class written in CSS form (every generator purely of X type or purely of Z type), or None when no bipartite graph
+    of the orbit is found: graph state of a two-colourable graph with H on one colour class, then row operations among the X-type
+    generators and among the Z-type generators (so the X checks are typically NOT in reduced form), shuffled"""
+    for t in range(tries):
+        gid = orbit_gid if t == 0 else random_lc_walk(n, orbit_gid, rng, steps=rng.randrange(1, 3 * n))
+        adj = lc.adj_from_gid(n, gid)
+        col = two_colouring(n, adj)
+        if col is None:
+            continue
+        if rng.random() < 0.5:
+            col = [1 - c for c in col]
+        layer = [("h", (q,)) for q in range(n) if col[q] == 1]
+        gens = [pauli.propagate(g, layer) for g in lc.graph_state_gens(n, gid)]
+        xs = [g for g in gens if g[2] == 0]
+        zs = [g for g in gens if g[1] == 0]
+        if len(xs) + len(zs) != n:
+            continue
+        for grp in (xs, zs):
+            for _ in range(rng.randrange(0, 2 * len(grp) + 1)):
+                if len(grp) >= 2:
+                    i, j = rng.sample(range(len(grp)), 2)
+                    grp[i] = pauli.mul(grp[i], grp[j])
+        out = xs + zs
+        if rng.random() < 0.5:
+            rng.shuffle(out)
+        return out, {"graph": gid, "layer": [[g, list(q)] for g, q in layer]}
+    return None
+
+
 def apply_signs(gens, signs):
     return [(g[0] ^ ((signs >> i) & 1), g[1], g[2]) for i, g in enumerate(gens)]
 
 
 def member(n, orbit_gid, rng, signs="random", mix=True, local=True):
     """one member of the LC class of graph `orbit_gid` as a list of n signed Paulis"""
+    if mix == "css":        # written in CSS form where the class has one (else densely mixed)
+        r = css_member(n, orbit_gid, rng)
+        if r is None:
+            mix = True
+        else:
+            gens, info = r
+            if signs == "random":
+                gens = apply_signs(gens, rng.randrange(1 << n))
+            elif signs == "minus":
+                gens = [(1, g[1], g[2]) for g in gens]
+            elif signs not in ("plus",):
+                gens = apply_signs(gens, int(signs))
+            return gens, info
     gid = random_lc_walk(n, orbit_gid, rng)
     gens = lc.graph_state_gens(n, gid)
     layer = random_local_layer(n, rng) if local else []
